@@ -233,6 +233,11 @@ func TestVerifE9DqCorr(t *testing.T) {
 		mbpf := []int64{24, 30, 40, 64, 100, 1 << 20}[r.Intn(6)]
 		minSz := int64([]int{0, 1, 1, 5}[r.Intn(4)])
 		maxSz := minSz + int64(3+r.Intn(30))
+		big := r.Intn(10) == 0
+		if big { // bodies around bufio's 4096-byte buffer: chunked / direct reads of the read-ahead
+			mbpf = []int64{9000, 20000, 1 << 20}[r.Intn(3)]
+			maxSz = 9000
+		}
 		se := []int64{1, 2, 3, 5, 1000}[r.Intn(5)]
 		h.cfg = [4]int64{mbpf, minSz, maxSz, se}
 		h.newQ()
@@ -272,6 +277,9 @@ func TestVerifE9DqCorr(t *testing.T) {
 			}
 			if l > maxSz+12 {
 				l = maxSz
+			}
+			if big && r.Intn(3) > 0 {
+				l = []int64{4088, 4091, 4092, 4093, 4096, 4100, 8188, 8192, 30, 2000}[r.Intn(10)]
 			}
 			b := r.Bytes(int(l))
 			// make bodies distinct (when long enough) so that the FIFO oracle sees reordering
@@ -372,7 +380,7 @@ func TestVerifE9DqCorr(t *testing.T) {
 			}
 			k := r.Intn(100)
 			switch {
-			case k < 42:
+			case k < 46:
 				b := body()
 				before := h.fsLine()
 				err := h.q.Put(b)
@@ -454,7 +462,7 @@ func TestVerifE9DqCorr(t *testing.T) {
 				h.open = false
 				out.Case("close", "ok "+h.full())
 				hist["close"]++
-				if r.Intn(4) == 0 {
+				if r.Intn(3) == 0 {
 					for i := 0; i < 1+r.Intn(2); i++ {
 						corrupt()
 					}
